@@ -9,7 +9,8 @@ from fractions import Fraction
 
 from .. import core, gen
 
-RULE = ("structures: random consistent Atoms (1–8 atoms quick / –12 thorough; no cell, orthorhombic, or LAMMPS-oriented "
+RULE = ("structures: random consistent Atoms (1–8 atoms quick / –12 thorough; a quarter of them with 10–25 atom types "
+        "of distinct mass/label and 10–25 bond/angle/dihedral/improper types with distinct coefficient entries, 10–30 atoms; no cell, orthorhombic, or LAMMPS-oriented "
         "tilted cell with tilt factors of either sign; 1–4 atom types incl. unused ones; any subset of bond/angle/dihedral/"
         "improper terms and coefficient tables incl. unused entries and ids beyond the table; coefficient strings = random "
         "tokens separated by blanks/tabs with at most one trailing comment, possibly empty; any subset of the three tilt "
@@ -68,8 +69,24 @@ def rand_label(rng, el, i):
 def rand_lmp_atoms(rng, nmax=8, cell_kind=None):
     """gen.rand_atoms, extended for the file format: cells / numbers / strings / type tables as described in RULE"""
     ck = cell_kind or rng.choice(["none", "ortho", "ortho", "tri+", "tri-", "tri-"])
-    j = gen.rand_atoms(rng, n=rng.randint(1, nmax), cell=False, ntypes=rng.randint(1, 4),
-                       extras=(rng.random() < 0.15), unique_tags=False)
+    many = rng.random() < 0.25               # two-digit type ids: 10–25 atom types and 10–25 types per term kind
+    if many:
+        nt0 = rng.randint(10, 25)
+        j = gen.rand_atoms(rng, n=nt0 + rng.randint(0, 5), cell=False, ntypes=nt0,
+                           extras=(rng.random() < 0.15), unique_tags=False)
+        j["types"]["elem"] = rng.sample(sorted(gen.masses()), nt0)       # distinct elements: distinct masses
+        for k in gen.KINDS:
+            if rng.random() < 0.75:
+                ntk = rng.randint(10, 25)
+                ids = list(range(ntk)) + [rng.randrange(ntk) for _ in range(rng.randint(0, 4))]
+                rng.shuffle(ids)
+                ids = ids[:rng.randint(max(1, ntk - 3), len(ids))] + [ntk - 1]   # the top id is in use
+                w = len(j["xlabels"][k])
+                j["terms"][k] = [{"a": rng.sample(range(len(j["atoms"])), gen.ARITY[k]), "ty": ty,
+                                  "x": ["%s%d_%d" % (k[0], i, c) for c in range(w)]} for i, ty in enumerate(ids)]
+    else:
+        j = gen.rand_atoms(rng, n=rng.randint(1, nmax), cell=False, ntypes=rng.randint(1, 4),
+                           extras=(rng.random() < 0.15), unique_tags=False)
     if ck != "none":
         j["cell"], _ = gen.rand_cell(rng, ck)
         if ck in ("tri+", "tri-"):           # any subset of the three tilt factors may be zero, or round to zero
@@ -93,6 +110,8 @@ def rand_lmp_atoms(rng, nmax=8, cell_kind=None):
     M = gen.masses()
     els = j["types"]["elem"]
     j["types"]["label"] = [rand_label(rng, e, i) for i, e in enumerate(els)]
+    if many:                                 # every type recognisable: distinct labels (and distinct coefficients below)
+        j["types"]["label"] = [rng.choice(["%s_%d", "%s %d", "%s%d"]) % (e, i + 1) for i, e in enumerate(els)]
     ms = [M[e] for e in els]
     r = rng.random()
     if r < 0.15:                             # a mass no element has: elements fall back to the type numbers
@@ -113,6 +132,22 @@ def rand_lmp_atoms(rng, nmax=8, cell_kind=None):
         else:
             n = rng.randint(0, max(top, 1))  # possibly fewer entries than ids in use
         j["types"][k] = [rand_coeff(rng) for _ in range(n)]
+    if many:
+        def tag(tbl, pre):                   # a token that identifies the entry, first or last among the tokens
+            out = []
+            for i, c in enumerate(tbl):
+                head, sep_, tail = c.partition("#")
+                head = ("%s%d %s" % (pre, i, head)) if rng.random() < 0.5 else ("%s %s%d " % (head, pre, i))
+                out.append(head + sep_ + tail)
+            return out
+        for k in gen.KINDS:
+            if j["terms"][k] and rng.random() < 0.8:     # a full table (plus unused entries) for most kinds with terms
+                top = max(t["ty"] for t in j["terms"][k]) + 1
+                j["types"][k] = [rand_coeff(rng) for _ in range(top + rng.randint(0, 2))]
+            j["types"][k] = tag(j["types"][k], k[0])
+        if rng.random() < 0.8:
+            j["types"]["pair"] = [rand_coeff(rng) for _ in range(nt)]
+        j["types"]["pair"] = tag(j["types"]["pair"], "p")
     return j, ck
 
 
@@ -607,6 +642,8 @@ def run(ctx, oracle_only=False):
                 ctx.case(inp, nontrivial=(any(aj["terms"][k] for k in gen.KINDS) or has_comment) and not rejected)
                 ctx.count("style:" + style)
                 ctx.count("cell:" + ck)
+                ctx.count("atomtypes>=10" if len(aj["types"]["elem"]) >= 10 else "atomtypes<10")
+                ctx.count("termtypes>=10" if any(len(aj["types"][k]) >= 10 for k in gen.KINDS) else "termtypes<10")
                 ctx.count("size:" + signature(aj, ck).split("/")[0])
                 bad, det = oracle_case(aj, style, tmpdir if (s % 10 == 0 or oracle_only) else None)
                 if bad:
